@@ -19,6 +19,7 @@ from .analyze_tags import InnerTagMap
 from .analyze_tags import TagAnalysis
 from .builtin import DictLoader
 from .exceptions import BlockNestingError
+from .exceptions import ContextDepthError
 from .exceptions import LiquidError
 from .exceptions import LiquidSyntaxError
 from .exceptions import TemplateInheritanceError
@@ -283,6 +284,12 @@ class Environment:
         except (LiquidSyntaxError, TemplateInheritanceError, BlockNestingError) as err:
             err.template_name = path
             raise err
+        except RecursionError as err:
+            raise ContextDepthError(
+                "maximum recursion depth exceeded while parsing, "
+                "possible recursive include or render",
+                token=None,
+            ) from err
         except Exception as err:  # noqa: BLE001
             raise LiquidError("unexpected liquid parsing error", token=None) from err
         return self.template_class(
